@@ -820,11 +820,9 @@ func featureKey(phase string, m *Metric, env *Env, extra string) string {
 			}
 		}
 	}
-	types := 0
+	types := map[int]bool{}
 	for _, f := range m.Fields {
-		if f.Type >= 0 && f.Type < 8 {
-			types |= 1 << uint(f.Type)
-		}
+		types[f.Type] = true
 	}
 	tb := len(m.Tags)
 	switch {
@@ -833,7 +831,7 @@ func featureKey(phase string, m *Metric, env *Env, extra string) string {
 	case tb > 4:
 		tb = 5
 	}
-	return fmt.Sprintf("%s|lim=%s|tags=%d|dup=%t/%t|esc=%t|uni=%t|ft=%x|hist=%t|line=%t|enr=%d|inj=%s|%s",
-		phase, env.Lim.Profile, tb, dup, conflict, esc, uni, types, m.Compound != nil, m.Line != nil, len(env.Enriched),
+	return fmt.Sprintf("%s|lim=%s|tags=%d|dup=%t/%t|esc=%t|uni=%t|ftypes=%d|hist=%t|line=%t|enr=%t|inj=%s|%s",
+		phase, env.Lim.Profile, tb, dup, conflict, esc, uni, len(types), m.Compound != nil, m.Line != nil, len(env.Enriched) > 0,
 		strings.Join(m.Inject, "+"), extra)
 }
